@@ -16,6 +16,34 @@ def _date_add(d, days):
     return (date(y, m, dd) + timedelta(days=days)).isoformat()
 
 
+def gen_order_sensitive(rng, pid="q"):
+    """-> text of a project in which the WRITTEN ORDER of list-valued attributes decides the schedule: several alternatives
+    (the first one is the one whose completion is estimated, and all of them are booked in list order), team members in
+    allocation order, several dependencies; the resources differ in hours, efficiency and absences, so that any reordering
+    (e.g. by a detour through a set) moves dates"""
+    start = rng.choice(STARTS)
+    out = [f'project {pid} "P {pid}" {start} +14w {{ timezone "Etc/UTC" }}']
+    hours = ["workinghours mon - fri 7:00 - 15:00", "workinghours mon - thu 10:00 - 18:00", "workinghours tue - sat 9:00 - 17:00", ""]
+    effs = ["efficiency 0.5", "efficiency 1.5", "", "efficiency 2.0"]
+    rng.shuffle(hours)
+    rng.shuffle(effs)
+    for i in range(4):
+        a = [hours[i], effs[i]]
+        if rng.random() < 0.6:
+            d = _date_add(start, rng.randrange(0, 12))
+            a.append(f"leaves annual {d} - {_date_add(d, rng.randrange(2, 6))}")
+        out.append(f'resource r{i} "R{i}" {{ ' + " ".join(x for x in a if x) + " }")
+    out.append(f'task blk "Blocker" {{ effort {rng.choice([15, 20, 25])}d allocate r0 priority 900 }}')
+    for j in range(rng.choice([2, 3])):
+        alts = rng.sample(["r1", "r2", "r3"], rng.choice([2, 3]))
+        dep = " depends !blk { gapduration 2h }" if rng.random() < 0.3 else ""
+        out.append(f'task a{j} "A{j}" {{ effort {rng.choice([2, 3, 5])}d allocate r0 {{ alternative {", ".join(alts)} }} priority {rng.choice([300, 500, 700])}{dep} }}')
+    team = rng.sample(["r1", "r2", "r3"], 2)
+    out.append(f'task tm "Team" {{ effort {rng.choice([10, 20, 30])}h allocate {", ".join(team)} priority 400 }}')
+    out.append('taskreport rep "rep" { formats csv columns id, start, end, effort }')
+    return "\n".join(out) + "\n"
+
+
 def gen_project(rng, kind="ok", pid="p"):
     """-> text.  kind: ok | limits | shared | lowefficiency | deadlock | tiny"""
     start = rng.choice(STARTS)
@@ -106,8 +134,13 @@ def gen_project(rng, kind="ok", pid="p"):
             a.append(f"effort {eff}{unit}")
             alloc = r
             if len(rids) > 1 and rng.random() < 0.25:
-                r2 = rng.choice([x for x in rids if x != r])
+                others = [x for x in rids if x != r]
+                r2 = rng.choice(others)
                 alloc = f"{r} {{ alternative {r2} }}" if rng.random() < 0.5 else f"{r}, {r2}"
+                if len(others) >= 2 and rng.random() < 0.5:
+                    # several alternatives: their written order decides the routing (the first one is estimated)
+                    alts = rng.sample(others, rng.choice([2, min(3, len(others))]))
+                    alloc = f"{r} {{ alternative {', '.join(alts)} }}"
             if not inherit_alloc:
                 a.append(f"allocate {alloc}")
             if len(scen_ids) > 1 and rng.random() < 0.4:
